@@ -898,6 +898,317 @@ def oracle(c, r):
     return fails
 
 
+# ---------------------------------------------------------------------------
+# sessions: prior passing from stateful results (caches of SamplesSummary / Result; child results of combined and
+# free-parameter analyses made by subsamples()), whatever was read from the parent or the child before
+# ---------------------------------------------------------------------------
+PARENT_READS = ["maxl_vec", "median_vec", "prior_means", "maxl_inst", "instance", "max_log_likelihood_instance", "paths", "names",
+                "model", "model_absolute", "model_relative", "model_bounded", "subsamples_other"]
+CHILD_READS = ["maxl_vec", "prior_means", "maxl_inst", "instance", "paths", "model", "model_absolute", "model_bounded"]
+INSTANCE_READS = ("instance", "max_log_likelihood_instance")
+
+
+def session_value(rng, spec, i):
+    """A moderate inferred value of any sign (extremes are covered by the stateless cases); made distinct per position."""
+    lo, hi = unhex(spec["lo"]), unhex(spec["hi"])
+    q = rng.random()
+    if q < 0.35:
+        v = lo + (hi - lo) * rng.randint(0, 16) / 16.0
+    elif q < 0.6:
+        v = rng.randint(-64, 64) / 8.0
+    elif q < 0.8:
+        v = -abs(rng.uniform(0.0, 10.0))
+    elif q < 0.85:
+        v = 0.0
+    else:
+        v = rng.uniform(-100.0, 100.0)
+    return v + (i + 1) / 1024.0 if v != 0.0 or rng.random() < 0.5 else v
+
+
+def root_prior_args(e):
+    """Names of the float arguments of a Model root that hold a pool prior: [(name, ref)]."""
+    if e["t"] != "model":
+        return []
+    return [(arg, e["kw"][arg]["ref"]) for arg, kind, _ in MG.SIGNATURES[e["cls"]]
+            if kind not in ("tuple", "class") and e["kw"][arg]["t"] == "prior"]
+
+
+def gen_session(ctx, thorough):
+    rng = ctx.rng
+    while True:
+        g = MG.Gen(rng, max_depth=rng.choice([1, 2, 2, 3] if thorough else [1, 2, 2]), big_tuples=False,
+                   families=("uniform", "uniform", "gaussian", "loguniform"))
+        prog = g.program()
+        specialise(prog, rng)
+        n = len(prog["pool"])
+        # no division: instance reads of a session evaluate arithmetic priors at the inferred values (a zero divisor is
+        # an error of the instance, not of prior passing; division is covered by the stateless cases at a probe vector)
+        if 1 <= n <= 16 and '"op": "/"' not in json.dumps(prog["root"]):
+            break
+    pool = prog["pool"]
+    c = {"kind": "session", "program": prog}
+    q = rng.random()
+    if q < 0.4:
+        c["shape"] = "free"
+        c["free"] = rng.sample(range(n), rng.choice([1, 1, 2]) if n > 1 else 1)
+        c["n_children"] = rng.choice([2, 2, 3])
+    elif q < 0.7:
+        c["shape"] = "renamed"
+        args = root_prior_args(prog["root"])
+        refs = [r_ for _, r_ in args]
+        if len(set(refs)) >= 2 and rng.random() < 0.8:
+            k = rng.randrange(1, len(args))
+            # the joint model exposes the component's parameters directly, under each other's names
+            c["rename"] = [[args[i][0], refs[(i + k) % len(refs)]] for i in range(len(args))]
+        else:
+            c["rename"] = [["x%d" % i, rng.randrange(n)] for i in range(rng.choice([1, 2]))]
+    else:
+        c["shape"] = "items"
+    if c["shape"] == "items" and prog["root"]["t"] != "coll":          # a Model root: its children are made by the library
+        c["shape"] = "free"
+        c["free"] = rng.sample(range(n), rng.choice([1, 1, 2]) if n > 1 else 1)
+        c["n_children"] = rng.choice([2, 2, 3])
+    nv = n + 8
+    c["maxl"] = [session_value(rng, pool[i % n], i).hex() for i in range(nv)]
+    med = [session_value(rng, pool[i % n], i) for i in range(nv)]
+    c["median"] = [(m + 0.125 if m.hex() == x else m).hex() for m, x in zip(med, c["maxl"])]
+    c["no_median"] = rng.random() < 0.15
+    c["top"] = rng.random() < 0.7
+    c["chain"] = [rng.randrange(1000)] + ([rng.randrange(1000)] if rng.random() < 0.25 else [])
+    c["route"] = rng.choice(["make_result", "make_result", "subsamples"])
+
+    def reads(pool_, k):
+        ops = [rng.choice(pool_) for _ in range(k)]
+        return [o for o in ops if not (c["no_median"] and o == "median_vec")]
+    c["chain_reads"] = reads(CHILD_READS, rng.choice([0, 1, 2])) if len(c["chain"]) > 1 else []
+    steps = [["P", o] for o in reads(PARENT_READS, rng.choice([0, 1, 1, 2, 3]))]
+    steps.append(["mk", c["route"]])
+    for _ in range(rng.choice([0, 0, 1, 2])):
+        t = rng.choice(["P", "C", "C"])
+        steps += [[t, o] for o in reads(PARENT_READS if t == "P" else CHILD_READS, 1)]
+    c["steps"] = steps
+    q = rng.random()
+    if q < 0.3:
+        c["mode"] = {"k": "means", "a": None, "r": None}
+    elif q < 0.5:
+        c["mode"] = {"k": "means", "a": rng.choice([0.25, 0.5, 1.0, 2.0, 0.0]).hex(), "r": None}
+    elif q < 0.7:
+        c["mode"] = {"k": "means", "a": None, "r": rng.choice([0.25, 0.5, 1.0, 0.0]).hex()}
+    else:
+        c["mode"] = {"k": "bounded", "b": rng.choice([0.25, 0.5, 1.0, 3.0]).hex()}
+    return c
+
+
+def session_classes(c):
+    """Finding classes of a session, computed from the case alone."""
+    out = ["session", "shape:" + c["shape"], "mode:" + c["mode"]["k"]]
+    before, made = [], False
+    for t, o in c["steps"]:
+        if t == "mk":
+            made = True
+        elif t == "P" and not made:
+            before.append(o)
+    if before:
+        out.append("parent-read-before-children")
+    # SamplesSummary.subsamples copies the summary: an instance cached on the parent (or on an intermediate child of a
+    # chain) before the copy is made travels with it
+    if any(o in INSTANCE_READS for o in before) or any(o in INSTANCE_READS for o in c.get("chain_reads") or []):
+        out.append("instance-cached-before-subsamples")
+    return out
+
+
+def session_oracle(c, r):
+    """The property on a session: [(message, observable the message is about)]. Independent of the Coq model: every
+    value is compared with the joint vector by parameter identity."""
+    fails = []
+    if not r.get("enough_values"):
+        return [("harness: not enough values for the joint model (%s parameters)" % r.get("n_joint"), "harness")]
+    if not r.get("n_candidates") or "orig" not in r:
+        bad = [e for e in r.get("log", []) if "exc" in e[2]]
+        return [("session: %s %s raised %s: %s" % (e[0], e[1], e[2]["exc"], e[2].get("msg")), "log") for e in bad]
+    nj = r["n_joint"]
+    maxl, med = c["maxl"][:nj], c["median"][:nj]
+    means_j = maxl if c["no_median"] else med
+    tj = r["to_joint"]
+    if any(j < 0 for j in tj):
+        return [("a parameter of the child model is not a parameter of the joint model", "harness")]
+    want_max = [maxl[j] for j in tj]
+    want_means = [means_j[j] for j in tj]
+    want = {"P": {"vec": maxl, "means": means_j}, "C": {"vec": want_max, "means": want_means}}
+    for t, o, res in r["log"]:
+        who = {"P": "the joint result", "C": "the child result", "mk": "making the child results"}[t]
+        if "exc" in res:
+            fails.append(("reading %s of %s raised %s: %s" % (o, who, res["exc"], (res.get("msg") or "")[-120:]), "log"))
+            continue
+        got = res["ok"] or {}
+        if t in want:
+            exp = dict(want[t])
+            if o == "median_vec":
+                exp["vec"] = med if t == "P" else [med[j] for j in tj]
+            for key in ("vec", "means"):
+                if key in got and got[key] != exp[key]:
+                    fails.append(("%s read from %s is %s, inferred %s" % (o, who, got[key][:6], exp[key][:6]), "log"))
+            if "other_means" in got and got["other_means"] != [means_j[j] for j in got["other_to_joint"]]:
+                fails.append(("prior means of another child made from %s are %s, the values inferred for its parameters are %s" % (
+                    who, got["other_means"][:6], [means_j[j] for j in got["other_to_joint"]][:6]), "log"))
+    if not r.get("child_is_model"):
+        fails.append(("the child result is not a result for the child model", "child"))
+    for key, exp, what in (("vec_maxl", want_max, "best-fit vector"), ("vec_means", want_means, "prior means")):
+        got = r[key]
+        if "exc" in got:
+            fails.append(("%s of the child result raised %s: %s" % (what, got["exc"], got.get("msg")), key))
+        elif got["ok"] != exp:
+            fails.append(("%s of the child result are %s, the values inferred for its parameters are %s" % (what, got["ok"][:6], exp[:6]), key))
+    pa = r["parent_after"]
+    if "exc" in pa:
+        fails.append(("the joint summary no longer answers after its children were made: %s %s" % (pa["exc"], pa.get("msg")), "parent_after"))
+    elif pa["ok"]["maxl"] != maxl or pa["ok"]["means"] != means_j or not pa["ok"]["model_is_joint"]:
+        fails.append(("the joint summary changed when its children were made / read", "parent_after"))
+    # the passing call on the child
+    mode = c["mode"]
+    k = mode["k"]
+    out = r["out"]
+    orig = r["orig"]
+    if "exc" in out:
+        b = unhex(mode["b"]) if k == "bounded" else None
+        absorbed = k == "bounded" and any(unhex(f) - b >= unhex(f) + b for f in want_max)
+        if not absorbed:
+            fails.append(("prior passing from the child result raised %s although every input is admissible: %s" % (
+                out["exc"], (out.get("msg") or "")[-160:]), "out"))
+        return fails
+    new = out["ok"]
+    if sorted(map(tuple, new["paths"])) != sorted(map(tuple, orig["paths"])):
+        fails.append(("the model passed from the child result advertises different paths: %s vs %s" % (new["paths"][:5], orig["paths"][:5]), "out"))
+        return fails
+    if sorted((tuple(p), q) for p, q in new["path_priors"]) != sorted((tuple(p), q) for p, q in orig["path_priors"]):
+        fails.append(("a path of the child's passed model holds another parameter than before", "out"))
+    if new["ids"] != orig["ids"] or new["count"] != orig["count"]:
+        fails.append(("parameter count / order of the child's passed model changed: %s vs %s" % (new["ids"], orig["ids"]), "out"))
+    if not new["paths_resolve"]:
+        fails.append(("an advertised path of the child's passed model does not resolve to its prior", "out"))
+    if not r.get("orig_unchanged", True):
+        fails.append(("the child model was modified by the passing call", "out"))
+    specs = {q: spec_num(sp) for q, sp in new["priors"]}
+    path_of = {}
+    for p, q in orig["path_priors"]:
+        path_of.setdefault(q, ".".join(p))
+    for i in range(len(tj)):
+        sp = specs.get(i)
+        if sp is None:
+            continue
+        if k == "means":
+            m = unhex(want_means[i])
+            if sp["family"] != "gaussian" or not same_float(sp["mean"], m):
+                fails.append(("child parameter %d (%s): passed prior %s is not a Gaussian centred on the value inferred for that parameter, %r"
+                              % (i, path_of.get(i), {x: sp[x] for x in ("family", "mean", "sigma") if x in sp}, m), "out"))
+                continue
+            if sp["sigma"] < 0:
+                fails.append(("child parameter %d: negative width %r" % (i, sp["sigma"]), "out"))
+            if mode["a"] is not None and not same_float(sp["sigma"], unhex(mode["a"])):
+                fails.append(("child parameter %d: width %r is not the absolute width requested" % (i, sp["sigma"]), "out"))
+            if mode["r"] is not None and not same_float(sp["sigma"], abs(unhex(mode["r"]) * m)):
+                fails.append(("child parameter %d: width %r is not r * |value|" % (i, sp["sigma"]), "out"))
+        else:
+            f, b = unhex(want_max[i]), unhex(mode["b"])
+            if sp["family"] != "uniform" or not same_float(sp["lo"], f - b) or not same_float(sp["hi"], f + b):
+                fails.append(("child parameter %d (%s): passed prior %s is not Uniform(v - b, v + b) around the value inferred for that parameter, %r"
+                              % (i, path_of.get(i), {x: sp[x] for x in ("family", "lo", "hi")}, f), "out"))
+    d = r.get("direct")
+    if d is not None and not fails:
+        if "ok" not in d:
+            fails.append(("the stateless passing call on the child model raised %s" % d.get("exc"), "direct"))
+        elif d["ok"]["tree"] != new["tree"] or d["ok"]["priors"] != new["priors"] or d["ok"]["paths"] != new["paths"]:
+            fails.append(("passing from the child result differs from model.mapper_from_* on the child model with the child's own values "
+                          "(widths / limits / structure)", "direct"))
+    # components fixed to the best-fit instance: the child's instance is the child model at the child's own values
+    inst, iexp = r["inst"], r.get("inst_expected")
+    if iexp is not None and "ok" in iexp:
+        if "ok" not in inst:
+            fails.append(("instance of the child result raised %s: %s" % (inst.get("exc"), inst.get("msg")), "inst"))
+        elif not C01.same_inst(iexp["ok"], inst["ok"]):
+            fails.append(("instance of the child result is not the child model at the values inferred for its parameters", "inst"))
+    return fails
+
+
+def session_pass_case(c, r):
+    """(pseudo case, pseudo result) of the stateless form of the session's final passing call, for the CPass printer:
+    the Coq model of prior passing applied to the child model and the child's own values must give what the stateful
+    route returned."""
+    nj = r["n_joint"]
+    maxl, med = c["maxl"][:nj], c["median"][:nj]
+    means_j = maxl if c["no_median"] else med
+    tj = r["to_joint"]
+    mode = c["mode"]
+    if mode["k"] == "means":
+        m2 = {"k": "means", "a": mode["a"], "r": mode["r"], "no_limits": False, "means": [means_j[j] for j in tj]}
+    else:
+        m2 = {"k": "bounded", "b": mode["b"], "floats": [maxl[j] for j in tj]}
+    return {"program": {"pool": [None] * len(tj)}, "mode": m2, "wms": {}}, {"orig": r["orig"], "out": r["out"]}
+
+
+def gen_sessions(ctx, thorough):
+    return [gen_session(ctx, thorough) for _ in range(2400 if thorough else 200)]
+
+
+def run_sessions(ctx, sessions):
+    """Drive the session cases, apply the oracle, and return the Coq terms (CPass on the child) with their case index."""
+    if not sessions:
+        return [], []
+    chunks = [ch for ch in (sessions[i::common.NCPU] for i in range(common.NCPU)) if ch]
+    outs = common.run_impl_parallel("c12_impl", [{"cases": ch} for ch in chunks], timeout=1500)
+    results = [None] * len(sessions)
+    for ci, o in enumerate(outs):
+        if "__error__" in o:
+            ctx.obligation("impl-driver-sessions", "harness", False, o["__error__"][-800:])
+            return [], []
+        for j, r in enumerate(o["results"]):
+            results[ci + j * common.NCPU] = r
+    terms, idx = [], []
+    for i, (c, r) in enumerate(zip(sessions, results)):
+        cls = session_classes(c)
+        ctx.oracle["cases"] += 1
+        if "exc" in r:
+            ctx.count_case({"session": c}, False, "session")
+            ctx.oracle["failures"] += 1
+            ctx.failure("oracle", "session driver raised %s: %s" % (r["exc"], r.get("msg", "")[-300:]), c, classes=cls)
+            continue
+        r = r["ok"]
+        usable = "orig" in r
+        pre = "parent-read-before-children" in cls
+        ctx.count_case({"session": c}, usable and len(r.get("to_joint", [])) >= 2 and (pre or len(c["steps"]) > 1), "session")
+        ctx.hist("session-shape", c["shape"])
+        ctx.hist("session-route", str(r.get("route")))
+        ctx.hist("session-parent-read-first", pre)
+        ctx.hist("session-chain", len(r.get("chain", [])))
+        ctx.hist("session-usable", usable)
+        for t, o in c["steps"]:
+            if t != "mk":
+                ctx.hist("session-read", t + ":" + o)
+        msgs = session_oracle(c, r)
+        for msg, about in msgs:
+            ctx.oracle["failures"] += 1
+            labels = [x for x in cls if x != "instance-cached-before-subsamples"]
+            if about == "inst" and "instance-cached-before-subsamples" in cls:
+                labels.append("instance-cached-before-subsamples")
+            ctx.failure("oracle", "session: " + msg, c, classes=labels,
+                        impl={k_: r.get(k_) for k_ in ("route", "chain", "to_joint", "log", "vec_maxl", "vec_means", "parent_after")}
+                        | {"out": r["out"] if "exc" in r.get("out", {}) else {k_: r["out"]["ok"].get(k_) for k_ in ("paths", "ids", "priors")} if "out" in r else None})
+        if usable and MG.tree_ok_for_model(r["orig"]["tree"]):
+            c2, r2 = session_pass_case(c, r)
+            try:
+                term = coq_case(c2, r2)
+            except Exception:  # noqa
+                term = None
+            if term is not None:
+                terms.append(term)
+                idx.append(i)
+        if i % 60 == 0:
+            ctx.sample({"session": {k_: c[k_] for k_ in ("shape", "steps", "mode", "chain", "route")}, "route": r.get("route"),
+                        "n_joint": r.get("n_joint"), "child_parameters": len(r.get("to_joint", []))})
+    ctx.session_results = results
+    return terms, idx
+
+
 # ---- Coq printers ---------------------------------------------------------
 FAM = {"uniform": "FUniform", "gaussian": "FGaussian", "loguniform": "FLogUniform", "loggaussian": "FLogGaussian"}
 EXC = {"MessageException": "EMessage", "PriorException": "EPrior", "IndexError": "EIndex", "KeyError": "EKey", "TypeError": "EType",
@@ -1013,7 +1324,9 @@ def run(ctx):
                 "constants, arithmetic priors; uniform, gaussian and log-uniform priors; some priors carrying their own width modifier) x one "
                 "passing mode (default widths from the prior config, absolute a, relative r, no_limits, bounded b, with_limits, replacing a "
                 "subset by new or existing priors, copy_with_fixed_priors) x inferred vectors of any sign and magnitude (inside limits, negative, "
-                "+-0, 1e+-300, 2^60, random) and of wrong length; half of the means/bounded cases also through af.Result. Non-trivial: >= 2 "
+                "+-0, 1e+-300, 2^60, random) and of wrong length; half of the means/bounded cases also through af.Result; plus session cases "
+                "(stateful results: reads of the joint result before / after child results are made by make_result / subsamples, then "
+                "prior passing from the child; non-trivial when the child has >= 2 parameters and something was read). Non-trivial: >= 2 "
                 "priors and at least one of shared prior, nesting, tuple, arithmetic, constant. Distinct = distinct (program, mode, values).")
     ctx.trusted = [
         "Coq 8.16.1 kernel incl. vm_compute; primitive floats (PrimFloat) are kernel primitives",
@@ -1025,7 +1338,10 @@ def run(ctx):
     ]
     ctx.assumptions = [
         "tuple members are priors or floats named <argument>_<i>; no attribute of a Model is named <tuple argument>_<suffix>",
-        "arithmetic theorems are over exact rationals (generated *_Q leaves); binary64 behaviour is compared bit-for-bit by the correspondence",
+        "arithmetic theorems are over exact rationals (generated *_Q leaves), except `no negative width` which is also proved for ALL "
+        "binary64 values (C12_relative_width_float, C12_absolute_width_float, C12_widths_not_negative_float_leaves; they depend on the "
+        "specification axioms FloatAxioms.ltb_spec/leb_spec/eqb_spec/abs_spec/mul_spec of the Coq standard library); other binary64 behaviour "
+        "is compared bit-for-bit by the correspondence",
         "config lookup (autoconf) is an oracle table keyed by (class name, attribute name); inheritance from a parent class is "
         "materialised by the harness",
     ]
@@ -1061,6 +1377,12 @@ def run(ctx):
         rp = json.load(open(ctx.replay))
         if rp.get("case"):
             cases = [rp["case"]]
+    if ctx.replay and len(cases) == 1 and cases[0].get("kind") == "session":
+        check_sessions(ctx, cases)          # replay of a session case
+        return
+    sessions = [] if ctx.replay else gen_sessions(ctx, thorough)          # drawn after the stateless cases
+    sessions = [c_ for c_ in cases if c_.get("kind") == "session"] + sessions          # pinned session cases of the corpus
+    cases = [c_ for c_ in cases if c_.get("kind") != "session"]
     chunks = [ch for ch in (cases[i::common.NCPU] for i in range(common.NCPU)) if ch]
     outs = common.run_impl_parallel("c12_impl", [{"cases": ch} for ch in chunks], timeout=1500)
     results = [None] * len(cases)
@@ -1141,6 +1463,140 @@ def run(ctx):
                         broken={"kind": "correspondence", "name": "C12.check_case"}, found_input=bool(o))
     else:
         ctx.obligation("correspondence:cases", "correspondence", False, "Model.vo not built")
+    check_sessions(ctx, sessions)
+
+
+
+def probe_subsamples(repo=None):
+    """Which variant of the code exists: SamplesSummary.subsamples and Samples.subsamples must reset the `_instance` cache of
+    the copy they make (`copied = copy(self)` ... `copied._instance = None`, since 4da3fbc), next to `_paths` and `_names`.
+    Session.v models that variant (subsamples_resets_instance = true). Fail-closed: anything else is reported."""
+    out = []
+    for rel, cls in (("autofit/non_linear/samples/summary.py", "SamplesSummary"), ("autofit/non_linear/samples/samples.py", "Samples")):
+        try:
+            tree = ast.parse(open(os.path.join(repo or common.REPO, rel)).read())
+            fn = [f for k_ in ast.walk(tree) if isinstance(k_, ast.ClassDef) and k_.name == cls
+                  for f in k_.body if isinstance(f, ast.FunctionDef) and f.name == "subsamples"]
+            if len(fn) != 1:
+                return False, "%s.subsamples not found in %s" % (cls, rel)
+            copies = [n_.targets[0].id for n_ in ast.walk(fn[0]) if isinstance(n_, ast.Assign) and len(n_.targets) == 1
+                      and isinstance(n_.targets[0], ast.Name) and isinstance(n_.value, ast.Call)
+                      and ast.unparse(n_.value).replace(" ", "") == "copy(self)"]
+            if len(copies) != 1:
+                return False, "%s.subsamples no longer makes exactly one `copy(self)`" % cls
+            resets = {ast.unparse(n_.targets[0]) for n_ in fn[0].body if isinstance(n_, ast.Assign) and len(n_.targets) == 1
+                      and isinstance(n_.value, ast.Constant) and n_.value.value is None}
+            missing = [a for a in ("_paths", "_names", "_instance") if "%s.%s" % (copies[0], a) not in resets]
+            if missing:
+                return False, "%s.subsamples does not reset %s of the copy (the Coq model Session.v resets all three caches)" % (
+                    cls, ", ".join(missing))
+            out.append("%s.subsamples resets _paths, _names, _instance" % cls)
+        except (OSError, SyntaxError) as e:
+            return False, "%s: %s" % (rel, e)
+    return True, "; ".join(out)
+
+
+def coq_header(ctx, extra=()):
+    hdr = ctx.header(["Common.PyFloat", "Gen", "Model"] + list(extra)).replace(
+        "From PAFC12 Require Import Gen.", "From PAFC01 Require Import ModelTree.\nFrom PAFC12 Require Import Gen.")
+    return hdr + "\nDefinition the_cfg : config float := %s." % coq_config()
+
+
+def check_sessions(ctx, sessions):
+    """Oracle and correspondence for the session cases."""
+    if not sessions:
+        return
+    ok, detail = probe_subsamples()
+    ctx.obligation("translator:subsamples-resets-instance", "translator", ok, detail)
+    terms, idx = run_sessions(ctx, sessions)
+    results = getattr(ctx, "session_results", None)
+    if results is None:
+        return
+    fixed = {k_["replay"].split("C12-", 1)[1][:-5]: k_ for k_ in common.load_known("C12") if k_.get("status") == "fixed" and k_.get("replay")}
+    for c, r in zip(sessions, results):
+        slug = c.get("_pinned")
+        if slug in fixed:
+            msgs = ["driver raised %s" % r["exc"]] if "exc" in r else [m for m, _ in session_oracle(c, r["ok"])]
+            ctx.obligation("regression:" + fixed[slug]["signature"], "regression", not msgs,
+                           "pinned session of the repaired finding passes" if not msgs else "REGRESSED: " + "; ".join(msgs)[:500])
+    if not os.path.exists(os.path.join(common.COQ, "C12", "Model.vo")):
+        ctx.obligation("correspondence:sessions", "correspondence", False, "Model.vo not built")
+        return
+    if terms:
+        bad, log = ctx.eval_cases(coq_header(ctx), "case", "check_case", terms, tag="sessions", shard=30)
+        for b_ in (bad or [])[:5]:
+            i = idx[b_]
+            o = "; ".join(m for m, _ in session_oracle(sessions[i], results[i]["ok"]))
+            ctx.failure("correspondence", "session: the Coq model of prior passing applied to the child model and the values inferred for "
+                        "its parameters disagrees with what the child result passed" + (": " + o if o else ""), sessions[i],
+                        classes=[x for x in session_classes(sessions[i]) if x != "instance-cached-before-subsamples"],
+                        impl=results[i]["ok"].get("out"), broken={"kind": "correspondence", "name": "C12.check_case (session)"},
+                        found_input=bool(o))
+    summary_sessions(ctx, sessions, results)
+
+
+def summary_sessions(ctx, sessions, results):
+    """Correspondence of the Coq model of the samples summary (coq/C12/Session.v) with the vectors the child summary returned."""
+    if not os.path.exists(os.path.join(common.COQ, "C12", "Session.vo")):
+        ctx.obligation("correspondence:summaries", "correspondence", False, "Session.vo not built")
+        return
+    terms, idx = [], []
+    for i, (c, r) in enumerate(zip(sessions, results)):
+        term = coq_scase(c, r.get("ok") or {})
+        if term is not None:
+            terms.append(term)
+            idx.append(i)
+    if not terms:
+        return
+    bad, log = ctx.eval_cases(coq_header(ctx, ["Session"]), "scase", "check_scase", terms, tag="summaries", shard=40)
+    for b_ in (bad or [])[:5]:
+        i = idx[b_]
+        o = "; ".join(m for m, _ in session_oracle(sessions[i], results[i]["ok"]))
+        ctx.failure("correspondence", "session: the Coq model of the samples summary (reads, subsamples) disagrees with the best-fit vector / "
+                    "the instance the child summary returned" + (": " + o if o else ""), sessions[i],
+                    classes=[x for x in session_classes(sessions[i]) if x != "instance-cached-before-subsamples"],
+                    impl={"vec_maxl": results[i]["ok"].get("vec_maxl"), "inst": results[i]["ok"].get("inst"), "chain": results[i]["ok"].get("chain")},
+                    broken={"kind": "correspondence", "name": "C12.check_scase"}, found_input=bool(o))
+
+
+PATH_READS = ("maxl_vec", "median_vec", "prior_means", "maxl_inst", "instance", "max_log_likelihood_instance", "paths", "model",
+              "model_absolute", "model_relative", "model_bounded")
+
+
+def coq_scase(c, r):
+    """Coq term of type `scase` (Session.v): the joint model, its best sample, the history, the chain of child models and
+    the vector the last child's summary returned."""
+    if "orig" not in r or "joint_tree" not in r:
+        return None
+    trees = [r["joint_tree"]] + list(r["chain_trees"])
+    if not all(MG.tree_ok_for_model(t) for t in trees):
+        return None
+    v = r["vec_maxl"]
+    if "ok" in v:
+        vec = "(Some %s)" % clist([cfloat(unhex(x)) for x in v["ok"]])
+    elif v.get("exc") == "KeyError":
+        vec = "None"
+    else:
+        return None
+    before, made = [], False
+    for t, o in c["steps"]:
+        if t == "mk":
+            made = True
+        elif t == "P" and not made:
+            before.append(o)
+    pre_read = any(o in PATH_READS for o in before)
+    pre_inst = any(o in INSTANCE_READS for o in before)
+    mid_read = bool(c.get("chain_reads")) and len(r["chain_trees"]) > 1
+    kw = clist(["(%s, %s)" % (MG.coq_path(p), cfloat(unhex(x))) for p, x in r["kw_max"]])
+    inst = r.get("inst") or {}
+    if "ok" in inst:
+        iterm = "(Some (Some %s))" % MG.coq_ival(inst["ok"])
+    elif inst.get("exc") == "KeyError":
+        iterm = "(Some None)"
+    else:
+        iterm = "None"
+    return "(SCase %s %s %s %s %s %s %s %s)" % (MG.coq_node(trees[0]), kw, cbool(pre_read), cbool(pre_inst), cbool(mid_read),
+                                                clist([MG.coq_node(t) for t in trees[1:]]), vec, iterm)
 
 
 MANIFEST = {
@@ -1154,14 +1610,24 @@ MANIFEST = {
             "width; an unshared parameter is configured under its own (class, attribute), a shared one under class and name of its last place "
             "(repaired a8a9b5b; legacy witness kept); with_limits by family incl. log-gaussian (repaired d755794). Tied to the code by bit-exact vm_compute correspondence of the passed model, its priors and "
             "exceptions on generated compositions x modes x vectors of any sign/magnitude, plus a direct property oracle (incl. the "
-            "af.Result routes, non-float constants of collections, where a tightened prior maps the unit interval)",
+            "af.Result routes, non-float constants of collections, where a tightened prior maps the unit interval). Results as stateful "
+            "objects (coq/C12/Session.v: SamplesSummary with its `_paths` / `_instance` caches, reads, subsamples; theorems: cache invariant "
+            "over every sequence of reads and child creations, history-irrelevance of the child's best-fit vector and prior means, child "
+            "instance own (full since 4da3fbc; legacy witness kept; the variant is probed in the source on every run): session cases = joint models made by FreeParameterAnalysis.modify_model / collections / a "
+            "component whose parameters the joint model also exposes under each other's names x random reads of the joint result "
+            "(max_log_likelihood, median_pdf, prior_means, instance, model, model_absolute/relative/bounded, paths, names, subsamples of a "
+            "sibling) before and after the child results are made (make_result of IndexCollection / FreeParameter analyses or subsamples, "
+            "chains of depth 2) x reads of the child x the passing mode on the child; oracle by parameter identity against the joint "
+            "vector, CPass correspondence on the child model, check_scase correspondence of the summary model (vector and instance)",
     "note": "Trusted: Coq kernel + vm_compute; translator; harness abstraction of live objects; config table read by the harness. Known "
-            "finding (suppressed, narrow class): bounded-absorbed; the pinned cases of the eight repaired "
+            "finding (suppressed, narrow class): bounded-absorbed; the pinned cases of the nine repaired "
             "findings are regression obligations. Not modelled: AnnotationPriorModel, Array models, deferred arguments, "
             "** Log Log10 (subtraction as a + (-b), negation, abs, % and // are inside the model since ext-tree: NUn, OMod, OFloorDiv; "
             "known finding modified-prior-over-prior: mapper_from_prior_means raises AttributeError for -p / abs(p) / p - q over a prior, "
             "modelled (Exc EAttr) under the source-detected switch Gen.modified_prior_cls_falls_back, guard cls_ok of the means theorems), "
             "excluded_classes of copy_with_fixed_priors, the message object of a prior (oracle only), "
-            "Result.model caching, jax; arithmetic theorems are over exact rationals, binary64 only on a stated grid and by correspondence.",
+            "name-keyed (samples.csv) samples in sessions, Samples.subsamples (full sample lists), jax; arithmetic theorems are over exact rationals; in binary64 `relative and absolute widths from a "
+            "non-negative factor are never negative` is a theorem for all floats (FloatAxioms of the Coq library, via coq/Common/Float64Order.v; "
+            "the former grid statement is kept as an axiom-free computation), everything else binary64 is by correspondence.",
     "technique": "machine-checked proof in Coq (hand-written model over the C01 tree + translated leaf formulas) + vm_compute correspondence",
 }
